@@ -15,20 +15,6 @@ Instances of the generic interleaving theorem (`GauLemmas.run_inv`).
 namespace ScVerif.C20.Publication
 open Gau
 
-/-- a request of the publication API on an existing publication -/
-inductive PReq where
-  | update (p : Pub) (mask : UMask) (version : String)
-  | ack (version : String) (receipt : Int) (reason : String) (allowAck : Bool)
-
-def PReq.call (H : Hash) : PReq → PCall
-  | .update p m v => updateCall H p m v
-  | .ack v r reason a => ackCall v r reason a
-
-theorem PReq.call_ok (H : Hash) (r : PReq) : (r.call H).OK (PubOK H) := by
-  cases r with
-  | update p m v => exact updateCall_ok H p m v
-  | ack v r reason a => exact ackCall_ok H v r reason a
-
 /-- **version = H(content) and publish ≤ receipt ≤ now, after every interleaving.** -/
 theorem C20_pub_conc_consistent (H : Hash) (cur : Pub) (now : Int) (progs : List (List PReq))
     (h0 : ReceiptOK now cur ∧ cur.version = mint H cur) (sched : List Ev) :
